@@ -33,8 +33,8 @@ ASSUMPTIONS = ['"finite time" is restated as: no reachable all-blocked state and
                'user code are judged']
 SHARD_TIMEOUT = {'quick': 600, 'thorough': 7000}
 LIMITS = {
-    'quick': dict(dfs_n=2, dfs_b=2, dfs_bound=2, dfs_cap=500, rnd_n=4, rnd_b=3, rnd_w=2,
-                  rnd_runs=16, dir_runs=12, real_runs=300, proc_cases=1),
+    'quick': dict(dfs_n=2, dfs_b=2, dfs_bound=2, dfs_cap=320, rnd_n=4, rnd_b=3, rnd_w=2,
+                  rnd_runs=10, dir_runs=8, real_runs=300, proc_cases=1),
     'thorough': dict(dfs_n=3, dfs_b=2, dfs_bound=3, dfs_cap=8000, rnd_n=6, rnd_b=4,
                      rnd_w=3, rnd_runs=120, dir_runs=80, real_runs=4000, proc_cases=4),
 }
@@ -59,7 +59,7 @@ def scenarios(nmax, bmax, wmax, faults=True):
             for j in sorted({0, n - 1}):
                 out.append(cs.make(entry, n, b, w, faults={'src': {str(j): 'value'}}))
                 out.append(cs.make(entry, n, b, w, faults={'fn': {str(j): 'user'}}))
-                if entry in ('pf1', 'pft', 'parmap', 'chain', 'chainmid', 'chainpar'):
+                if entry in ('pf1', 'pft', 'parmap', 'chain', 'chainmid', 'chainpar', 'parpf1'):
                     # the same through .items(): the keyed iteration of a stage
                     # is other code than the plain one
                     out.append(cs.make(entry, n, b, w, faults={'fn': {str(j): 'user'}},
